@@ -9,23 +9,23 @@ ROOT = os.path.dirname(os.path.dirname(os.path.abspath(__file__)))
 
 SPACE = {
  "C01": "{seeds} seeds: 16 fixture seeds + synthetic seeds and their pair plans (cmap 0/2/6/10/12, kern 0/2, vhea/vmtx, post 2, name 0/1, TTC, fvar/avar/STAT, sbix dupe graphs, SVG plain/gzip, CBLC/CBDT and EBLC/EBDT with every index format 1-5 and image format 1/2/5-9/17-19, morx with all subtable types, AAT lookup formats 0-10 and multi-STORE ligature actions, C12 variable fonts incl. composite cycles and cvar, C18 CFF/CFF2 fonts incl. seac cycles and recursive subroutines); faults at the directory, the first 24-64 bytes of every boilerplate table and every position (first 1024 bytes) of the tables a synthetic seed was written for; all truncations / removals / re-tags / swaps; coupled pairs on 2 seeds [all ~300 fixtures, every position of seeds <= 8 KB, pairs on every small synthetic seed]",
- "C02": "13 scripts x 2-4 fonts x all strings <= 3 (core alphabet 4-5) x <= 1 configuration deviation (8 feature selections incl. FRAC and fina/ccmp custom sets, language, kerning, direction, vertical, unmapped script; 36 script tags on the Latin fonts) [<= 4-6, 2 deviations]; fraction family; every prefix/suffix of runs with attachments laid out on its own; character class sweep: 3 700 code points of the complex-script blocks x 5 contexts x 13 shapers; single faults over GSUB/GPOS/GDEF/kern/morx of the first font of every AOTS family [all 206], synthetic kern fonts, six complex-script GSUB fonts through their own shaper, four fonts with inert / malformed contextual format 3 rules, a deleting context rule, a FeatureVariations font shaped with and without a tuple",
- "C03": "BFS to fixpoint over the cache states of 20 [21] subject fonts (synthetic FeatureVariations font, two variation regions sharing an alternate feature, Devanagari, Arabic, sbix x2, EBLC-only x2 incl. the image filter as an argument, symbol, latn-only GSUB, a 'dflt' LangSysRecord, 5 with unparsable lazy tables, 2 [3] with GSUB subtables 64 KiB-16 MiB apart, custom features without mask bits, broken default LangSys under a complex script), 6-20 calls each; unmerged histories to depth 3 [4]; a chain of 64 calls with distinct cache keys probed at every length; 312 pure operations x3 in-process + a second process",
- "C04": "19 000 [25 800] GSUB programs (single, ctxflags, nest, reach, pair, shared, variations, misc) x encodings x strings <= 3-4 [4-5] x 3 seams",
+ "C02": "13 scripts x 2-4 fonts x all strings <= 3 (core alphabet 4-5) x <= 1 configuration deviation (8 feature selections incl. FRAC and fina/ccmp custom sets, language, kerning, direction, vertical, unmapped script; 36 script tags on the Latin fonts) [<= 4-6, 2 deviations]; fraction family; every prefix/suffix of runs with attachments laid out on its own; character class sweep: 3 700 code points of the complex-script blocks x 5 contexts x 13 shapers; single faults over GSUB/GPOS/GDEF/kern/morx of the first font of every AOTS family [all 206], synthetic kern fonts, six complex-script GSUB fonts through their own shaper, four fonts with inert / malformed contextual format 3 rules, a deleting context rule, four fonts whose contextual / chaining lookups name themselves or each other, a FeatureVariations font shaped with and without a tuple",
+ "C03": "BFS to fixpoint over the cache states of 22 [23] subject fonts (synthetic FeatureVariations font, two variation regions sharing an alternate feature, Devanagari, Arabic, sbix x2, EBLC-only x2 incl. the image filter as an argument, symbol, latn-only GSUB, a 'dflt' LangSysRecord, GPOS with a kern feature per script, a feature naming a lookup beyond the list, 5 with unparsable lazy tables, 2 [3] with GSUB subtables 64 KiB-16 MiB apart, custom features without mask bits, broken default LangSys under a complex script), 6-20 calls each; unmerged histories to depth 3 [4]; a chain of 64 calls with distinct cache keys probed at every length; 312 pure operations x3 in-process + a second process",
+ "C04": "19 000 [25 800] GSUB programs (single, ctxflags, nest, reach, pair, shared, variations, misc) x encodings x strings <= 3-4 [4-5] x 3 seams; class frac: 38 [85] liga / ccmp / frac lookup lists x 12 297 [122 938] prefix x fraction x suffix texts x 3 masks x 2 seams",
  "C05": "7 860 GPOS programs (single, pair, pairskip, cursive, cursiveadjust, markbase/marklig/markmark, markadjust, context, combo, overflow) x 4 [7] encodings x strings <= 3-4 [4-5] x components x 6 tuples x 2 directions x 2 hmtx variants; kern tables (formats 0/2, coverage bits, several subtables) x strings",
- "C06": "cmap 0/2/4/6/10/12 structures (<= 2 [3] segments/groups, 4 terminator forms, lead-byte trail ranges), 3 seams, lookup <-> enumeration both ways, all ordered selections of <= 3 encoding records, symbol / Mac Roman / Big5 laws over all bytes, codes, characters",
- "C07": "44 [47] sources: 28 small fonts with all ordered lists <= 4 [5] (fixtures in sfnt/WOFF/WOFF2 containers, -2 composites, synthetic cmap shapes, sixteen CFF/CFF2 model fonts; two 8000-glyph cmap sources at the format 4 size limit); large fonts: [0,g], neighbours, ranges at 2/255/256/257/n, tail, one glyph per composite class, Font DICT boundaries, Mac Roman thresholds, character neighbourhoods with an astral/BMP glyph at every position; x subset / prince (4 cmap targets) / CID conversion; outlines through allsorts' visitors and, for CFF outputs, through the independent C18 reader + interpreter and the model paths, with the CFF's declared advances, DICT values, strings and glyph names; metrics of requested and appended glyphs",
- "C08": "same enumeration as C07; source and output cmap read by the independent reader (honours subtable lengths) and compared in character space; independent Mac Roman table; Symbol sources through usFirstCharIndex",
+ "C06": "cmap 0/2/4/6/10/12 structures (<= 2 [3] segments/groups, 4 terminator forms, lead-byte trail ranges), 3 seams, lookup <-> enumeration both ways, all ordered selections of <= 3 encoding records, symbol / Mac Roman / Big5 laws over all bytes, codes, characters; Big5 both ways against the independent index",
+ "C07": "51 [54] sources: 35 small fonts with all ordered lists <= 4 [5] (fixtures in sfnt/WOFF/WOFF2 containers, -2 composites, synthetic cmap shapes incl. format 12 identity, Windows Big5 and aliased characters over a short hmtx, a six-level composite chain, two CID fonts with mixed local subrs, sixteen CFF/CFF2 model fonts; two 8000-glyph cmap sources at the format 4 size limit); large fonts: [0,g], neighbours, ranges at 2/255/256/257/n, tail, one glyph per composite class, Font DICT boundaries, Mac Roman thresholds, character neighbourhoods with an astral/BMP glyph at every position; x subset / prince (4 cmap targets) / CID conversion; outlines through allsorts' visitors and, for CFF outputs, through the independent C18 reader + interpreter and the model paths, with the CFF's declared advances, DICT values, strings and glyph names; metrics of requested and appended glyphs",
+ "C08": "same enumeration as C07; source and output cmap read by the independent reader (honours subtable lengths) and compared in character space; independent Mac Roman table and Big5 index; Symbol sources through usFirstCharIndex",
  "C09": "every successful output of the C07 enumeration + whole_font over all tag subsets of three fonts + instances of 5 variable fixtures at {{min, default, max, midpoints}}^axes and of ~900 C12 model fonts + WOFF2 reconstructions of 6 fixtures and 265 [724] C11 model files, through the independent validator and then the library itself",
- "C10": "tag subsets <= 3 [4] x length menu x 3 flavours x order deviations; TTC 1-2 [3] members x sharing patterns x 4 layouts x shared directories x 2 versions, member indices up to 2^63; WOFF with every stored/deflated assignment, metadata/private blocks, corrupt predecessors on the same thread",
+ "C10": "tag subsets <= 3 [4] x length menu x 3 flavours x order deviations; TTC 1-2 [3] members x sharing patterns x 4 layouts x shared directories x 2 versions, member indices up to 2^63; WOFF with every stored/deflated assignment, metadata/private blocks, corrupt predecessors on the same thread; 3 072 files whose tables collide on length / checksum / bytes x query orders",
  "C11": "model fonts x encoder choices: every triplet row incl. 16-bit rows to 65535 and int16-wrapping steps, 255UInt16 forms, bbox bitmap, instruction-flag placements, hmtx transform flags, loca formats, collections with shared tables and absent-table probes, long glyf tables at the short-loca limit",
- "C12": "nine TrueType families (iup, regions1, regions2, invalid1, packing, metrics, extreme, nested, cvar) + the CFF2 family, each font instanced at every region start/peak/end +-1 unit, midpoints, thirds, 0, +-1 and beyond the axis range [all 32769 normalised values for 198 one-axis fonts]",
- "C13": "286 axis triples x 160 [~1400] avar maps incl. 21 fine-knot maps x landmark / knot / interior probes [every 2.14 grid value x 4 sub-unit offsets on unit axes]; three-axis fonts x empty/identity/non-trivial maps x HIDDEN_AXIS flags x 5 (axisSize, axesArrayOffset) layouts; 15 unparsable avar variants x 3 tuples through variations::instance; all F2Dot14 <-> Fixed <-> f32 conversions",
- "C14": "fixpoint over buffers of 0-9 [12] distinct bytes, ~160 operations per state with boundary arguments, every produced array queried completely [stateright cross-run on the same successor function]",
+ "C12": "nine TrueType families (iup, regions1, regions2, invalid1, packing, metrics, extreme, nested, cvar) + the CFF2 family (incl. region-less ItemVariationData), vhea/vmtx/VVAR on half of the HVAR forms, each font instanced at every region start/peak/end +-1 unit, midpoints, thirds, 0, +-1 and beyond the axis range [all 32769 normalised values for 198 one-axis fonts]",
+ "C13": "286 axis triples x 163 [~1400] avar maps incl. 21 fine-knot maps and 5 with to-coordinates outside [-1, 1] x landmark / knot / interior probes [every 2.14 grid value x 4 sub-unit offsets on unit axes]; three-axis fonts x empty/identity/non-trivial maps x HIDDEN_AXIS flags x 5 (axisSize, axesArrayOffset) layouts; 15 unparsable avar variants x 3 tuples through variations::instance; all F2Dot14 <-> Fixed <-> f32 conversions",
+ "C14": "fixpoint over buffers of 0-9 [12] distinct bytes, ~160 operations per state with boundary arguments, every produced array queried completely, dependent arrays with undecodable elements [stateright cross-run on the same successor function]",
  "C15": "29 structure families, <= 2 [3] deviating fields; 94 fixture fonts x 16 table kinds parse-write-parse-write",
  "C16": "simple glyphs (every flag/repeat/short-vector encoding, 1-point and empty contours, long runs of 127-600 points) and composites (1-2 components, every transform and offset flag incl. both offset flags, nesting, cycles) through glyf and whole fonts",
  "C17": "23 script tags x alphabets of 12-16 x strings <= 5-6 [<= 7-8]; Arabic runs of 17-24 marks and all group patterns to 40 [64]; classification sweep of 2023 code points x 5 contexts x 9 scripts and all ordered pairs of 9 Indic blocks; map_glyphs agreement to length 3 [4]",
- "C18": "sixteen phases (forms, flex1-ties, numbers, hints, subrs, subrs-bias, subrs-nesting, cid, seac, seac-subrs, seac-moves, seac-nesting incl. cyclic cases in processes of their own, blend, blend-large, limits, otto), CFF and CFF2",
+ "C18": "eighteen phases (forms, flex1-ties, numbers, hints, subrs, subrs-bias, subrs-nesting, cid, seac, seac-subrs, seac-moves, seac-nesting incl. cyclic cases in processes of their own, blend, blend-large, blend-zero-regions (+ fdselect), limits, otto), CFF and CFF2",
 }
 
 def sci(n):
